@@ -607,3 +607,14 @@ mod timout_manager_tests {
         assert!(manager.next_rto(instant).is_none());
     }
 }
+
+#[cfg(feature = "verif-hooks")]
+impl StunMessageTimeout {
+    /// Pending timeout entries `(transaction id, armed at, duration)` (verification hook, read-only)
+    pub fn verif_entries(&self) -> Vec<(TransactionId, Instant, Duration)> {
+        self.timeouts
+            .iter()
+            .map(|item| (item.0.transaction_id, item.0.instant, item.0.timeout))
+            .collect()
+    }
+}
